@@ -10,6 +10,7 @@ import (
 
 	"rscheck/cfgq"
 	"rscheck/core"
+	"rscheck/lin"
 	"rscheck/pat"
 	"rscheck/rules/c10/flow"
 )
@@ -144,83 +145,166 @@ func (r *rs) r7() {
 	}
 	g := cfgq.Of(c.Program, fn)
 	i := param(info, fn, 0)
-	ib := pat.Binds{"_i": fn.Decl.Type.Params.List[0].Names[0]}
-	ret, b := pat.Stmt("return _tab[_n]").Find(info, fn.Decl.Body, ib)
-	var def ast.Node
-	if ret != nil {
-		def, b = pat.Stmt("_n = _i + _k").Find(info, fn.Decl.Body, b)
-	}
-	if def == nil || i == nil {
-		c.Undecidedf("R7.bias", "itos/lookup", fn.Decl.Pos(), "cannot find `n := i + k ... return table[n]`")
+	// the lookup: `return table[IDX]` on a package-level table, IDX = i + bias as a linear form
+	var ret *ast.ReturnStmt
+	var ix *ast.IndexExpr
+	var tab types.Object
+	core.Inspect(fn.Decl.Body, func(m ast.Node) bool {
+		if rs, ok := m.(*ast.ReturnStmt); ok && len(rs.Results) == 1 && ret == nil {
+			if x, ok := ast.Unparen(rs.Results[0]).(*ast.IndexExpr); ok {
+				if v, isVar := flow.Obj(info, x.X).(*types.Var); isVar && v.Pkg() != nil && v.Parent() == v.Pkg().Scope() {
+					ret, ix, tab = rs, x, v
+				}
+			}
+		}
+		return true
+	})
+	if ret == nil || i == nil {
+		c.Undecidedf("R7.bias", "itos/lookup", fn.Decl.Pos(), "cannot find `return table[index]` on a package-level table")
 		return
 	}
-	tab := flow.Obj(info, b["_tab"])
-	k2, okk := core.IntConst(info, b["_k"].(ast.Expr))
-	nobj := flow.Obj(info, b["_n"])
-	if tab == nil || !okk || nobj == nil || flow.Assignments(info, fn.Decl.Body, nobj) != 1 {
-		c.Undecidedf("R7.bias", "itos/lookup", def.Pos(), "table, bias or index variable not recognised")
+	iid := ast.NewIdent(i.Name())
+	info.Uses[iid] = i
+	iform := lin.Of(info, iid)
+	idx := lin.Of(info, ix.Index)
+	if !(lin.Form{Coef: idx.Coef}).Equal(lin.Form{Coef: iform.Coef}) {
+		c.Undecidedf("R7.bias", "itos/lookup", ix.Pos(), "the table index %s is not the argument plus a constant", c.Src(ix.Index))
 		return
+	}
+	k2 := idx.Const // table slot of v is v + k2
+	// the table's length: the atom len(table), and its constant size when the table is made once with one
+	lenKey, size := "", int64(-1)
+	core.InspectAll(fn.Decl.Body, func(m ast.Node) bool {
+		if call, ok := m.(*ast.CallExpr); ok && flow.IsBuiltin(info, call, "len") && len(call.Args) == 1 && flow.IsObj(info, tab)(call.Args[0]) {
+			lenKey = lin.Key(info, call)
+		}
+		return true
+	})
+	makes := 0
+	for _, fd := range r.decls() {
+		core.InspectAll(fd.Body, func(m ast.Node) bool {
+			as, ok := m.(*ast.AssignStmt)
+			if !ok || len(as.Lhs) != len(as.Rhs) {
+				return true
+			}
+			for j, l := range as.Lhs {
+				if flow.IsObj(info, tab)(l) {
+					makes++
+					if mk, isCall := ast.Unparen(as.Rhs[j]).(*ast.CallExpr); isCall && flow.IsBuiltin(info, mk, "make") && len(mk.Args) >= 2 {
+						if v, isC := core.IntConst(info, mk.Args[1]); isC {
+							size = v
+						}
+					}
+				}
+			}
+			return true
+		})
+	}
+	if makes != 1 {
+		size = -1
 	}
 	rp, _ := flow.PointOf(g, ret)
-	ok1, w1 := flow.OnlyVia(g, rp, func(f cfgq.Fact) bool { return flow.CmpIs(info, f, flow.IsObj(info, nobj), token.GEQ, 0) })
-	c.Check("R7.bias", "itos/lower-guard", ret.Pos(), ok1, "the table lookup must be guarded by n >= 0: integers below the table's range would index out of range", w1...)
-	ok2, w2 := flow.OnlyVia(g, rp, func(f cfgq.Fact) bool {
-		x, y, op, ok := flow.Rel(f)
-		if !ok {
+	about := func(f cfgq.Fact) bool { // a comparison over the argument and len(table) only
+		cmp, ok := lin.CmpOf(info, f.Expr, f.Val)
+		if !ok || len(cmp.F.Coef) == 0 {
 			return false
 		}
-		if op == token.GTR {
-			x, y, op = y, x, token.LSS
+		for a := range cmp.F.Coef {
+			if _, isI := iform.Coef[a]; !isI && a != lenKey {
+				return false
+			}
 		}
-		return op == token.LSS && flow.IsObj(info, nobj)(x) && lenOf(info, fn.Decl.Body, y) == tab
-	})
-	c.Check("R7.bias", "itos/upper-guard", ret.Pos(), ok2, "the table lookup must be guarded by n < len(table): integers above the table's range would index out of range", w2...)
+		return true
+	}
+	opq := flow.Opaque(g, about, i)
+	r.guard("R7.bias", "itos/lower-guard", ret.Pos(), g, rp, func(f cfgq.Fact) bool {
+		lo, isLower, ok := flow.Bound(info, f, iform)
+		return ok && isLower && lo+k2 >= 0
+	}, opq, "the table lookup must be guarded by index >= 0: integers below the table's range would index out of range")
+	r.guard("R7.bias", "itos/upper-guard", ret.Pos(), g, rp, func(f cfgq.Fact) bool {
+		if hi, isLower, ok := flow.Bound(info, f, iform); ok && !isLower && size >= 0 && hi+k2 < size {
+			return true
+		}
+		if lenKey == "" {
+			return false
+		}
+		w := lin.Form{Coef: map[string]int64{lenKey: -1}, Const: idx.Const}
+		for a, v := range idx.Coef {
+			w.Coef[a] += v
+		}
+		return flow.LinIs(info, f, w, token.LSS, 0)
+	}, opq, "the table lookup must be guarded by index < len(table): integers above the table's range would index out of range")
 	// fallback
-	fb, _ := pat.Stmt("return strconv.FormatInt(_i, _base)").Find(info, fn.Decl.Body, ib)
+	var fb *ast.CallExpr
+	core.Inspect(fn.Decl.Body, func(m ast.Node) bool {
+		if rs, ok := m.(*ast.ReturnStmt); ok && len(rs.Results) == 1 {
+			if call, ok := ast.Unparen(rs.Results[0]).(*ast.CallExpr); ok && core.IsFunc(core.CalleeFunc(info, call), "strconv", "", "FormatInt") && len(call.Args) == 2 && flow.IsObj(info, i)(unconv(info, call.Args[0])) {
+				fb = call
+			}
+		}
+		return true
+	})
 	if fb == nil {
 		c.Undecidedf("R7.bias", "itos/fallback", fn.Decl.Pos(), "cannot find `return strconv.FormatInt(i, 10)`")
 	} else {
-		c.Check("R7.bias", "itos/fallback", fb.Pos(), isConst(info, fb.(*ast.ReturnStmt).Results[0].(*ast.CallExpr).Args[1], 10), "integers outside the table are rendered in base 10")
+		c.Check("R7.bias", "itos/fallback", fb.Pos(), isConst(info, fb.Args[1], 10), "integers outside the table are rendered in base 10")
 	}
-	// the fill site
+	// the fill site: table[j] = decimal rendering of j + c1, for every j
 	fills := 0
 	for _, fd := range r.decls() {
-		core.Inspect(fd.Body, func(m ast.Node) bool {
-			fs, ok := m.(*ast.ForStmt)
-			if !ok || fs.Init == nil || fs.Cond == nil || fs.Post == nil {
+		fdBody := fd.Body
+		core.Inspect(fdBody, func(m ast.Node) bool {
+			as, ok := m.(*ast.AssignStmt)
+			if !ok || len(as.Lhs) != 1 || len(as.Rhs) != 1 {
 				return true
 			}
-			jb := pat.Stmt("_j = 0").Match(info, fs.Init, nil)
-			if jb == nil {
-				return true
-			}
-			var fill ast.Node
-			var fb pat.Binds
-			for _, p := range []string{"_t[_j] = strconv.Itoa(_j - _k)", "_t[_j] = strconv.FormatInt(int64(_j - _k), 10)", "_t[_j] = strconv.FormatInt(int64(_j) - _k, 10)"} {
-				if fill == nil {
-					fill, fb = pat.Stmt(p).Find(info, fs.Body, jb)
-				}
-			}
-			if fill == nil || flow.Obj(info, fb["_t"]) != tab {
+			lx, ok := ast.Unparen(as.Lhs[0]).(*ast.IndexExpr)
+			if !ok || !flow.IsObj(info, tab)(lx.X) {
 				return true
 			}
 			fills++
-			k1, isC := core.IntConst(info, fb["_k"].(ast.Expr))
-			if !isC {
-				c.Undecidedf("R7.bias", "fill/bias", fill.Pos(), "fill bias is not a constant")
+			j := flow.Obj(info, lx.Index)
+			call, _ := ast.Unparen(as.Rhs[0]).(*ast.CallExpr)
+			var rendered ast.Expr
+			if f := core.CalleeFunc(info, call); call != nil && core.IsFunc(f, "strconv", "", "Itoa") && len(call.Args) == 1 {
+				rendered = call.Args[0]
+			} else if call != nil && core.IsFunc(f, "strconv", "", "FormatInt") && len(call.Args) == 2 && isConst(info, call.Args[1], 10) {
+				rendered = call.Args[0]
+			}
+			if j == nil || rendered == nil {
+				c.Undecidedf("R7.bias", "fill/bias", as.Pos(), "table slot assignment %s is not `table[j] = decimal(j + c)`", c.Src(as))
 				return true
 			}
-			c.Check("R7.bias", "fill/bias", fill.Pos(), k1 == k2, fmt.Sprintf("slot j holds the rendering of j-%d but itos looks v up at v+%d: every table hit renders v%+d instead of v", k1, k2, k2-k1))
-			full := pat.Expr("_j < len(_t)").Match(info, fs.Cond, fb) != nil && pat.Stmt("_j++").Match(info, fs.Post, fb) != nil
+			jform := lin.Of(info, lx.Index)
+			val := lin.Of(info, rendered)
+			if !(lin.Form{Coef: val.Coef}).Equal(lin.Form{Coef: jform.Coef}) {
+				c.Undecidedf("R7.bias", "fill/bias", as.Pos(), "the value rendered into slot j (%s) is not j plus a constant", c.Src(rendered))
+				return true
+			}
+			c1 := val.Const - jform.Const
+			c.Check("R7.bias", "fill/bias", as.Pos(), k2+c1 == 0, fmt.Sprintf("slot j holds the rendering of j%+d but itos looks v up at slot v%+d: every table hit renders v%+d instead of v", c1, k2, k2+c1))
+			// every slot is filled: the assignment sits in a loop over the whole table
+			full := false
+			for _, n := range core.PathTo(fdBody, as) {
+				switch l := n.(type) {
+				case *ast.RangeStmt:
+					full = full || flow.IsObj(info, tab)(l.X) && l.Key != nil && flow.IsObj(info, j)(l.Key)
+				case *ast.ForStmt:
+					if l.Init != nil && l.Cond != nil && l.Post != nil {
+						jb := pat.Binds{"_j": lx.Index, "_t": lx.X}
+						full = full || pat.Stmt("_j = 0").Match(info, l.Init, jb) != nil && pat.Expr("_j < len(_t)").Match(info, l.Cond, jb) != nil && pat.Stmt("_j++").Match(info, l.Post, jb) != nil
+					}
+				}
+			}
 			if full {
-				c.Okf("R7.bias", "fill/complete", fs.Pos(), "every slot of the table is filled")
+				c.Okf("R7.bias", "fill/complete", as.Pos(), "every slot of the table is filled")
 			} else {
-				c.Undecidedf("R7.bias", "fill/complete", fs.Pos(), "fill loop bounds not recognised")
+				c.Undecidedf("R7.bias", "fill/complete", as.Pos(), "fill loop bounds not recognised")
 			}
 			return true
 		})
 	}
 	if fills != 1 {
-		c.Undecidedf("R7.bias", "fill/site", fn.Decl.Pos(), "expected exactly one loop filling the table, found %d", fills)
+		c.Undecidedf("R7.bias", "fill/site", fn.Decl.Pos(), "expected exactly one assignment filling the table, found %d", fills)
 	}
 }
